@@ -123,7 +123,8 @@ def run(tier):
     if tier == "quick":
         behs = printerout.behaviours(check, 2) + printerout.behaviours(check, 3, cars=("src", "syn"))
     else:
-        behs = printerout.behaviours(check, 3) + printerout.behaviours(check, 4, kinds=("php", "html"), cars=("src", "syn"), timeout=3000)
+        behs = printerout.behaviours(check, 3) + printerout.behaviours(check, 4, kinds=("php",), cars=("src", "syn"), timeout=3000) + \
+            printerout.behaviours(check, 4, kinds=("html",), cars=("src", "val"), timeout=3000)
     for b, want, got in printerout.replay(check, wp, behs):
         check.violation(printerout.classify(b, want, got), {"behaviour": b, "expected_writes": want, "observed_writes": got})
     check.count(len(behs))
